@@ -12,12 +12,16 @@ from proto import run_lines
 def m_k1(v, f):
     """a custom property rewritten on behalf of one rule while other rules depend on it"""
     d = v.get("details") or {}
+    if d.get("run_reproduced_by_model") is False:
+        return False        # the tool did something here that the model of the unchanged tool does not do: not the known finding
     return bool(d.get("shared_adjusted_properties")) or (d.get("custom_property") and d.get("rules_using_that_property", 0) > 1)
 
 
 def m_k2(v, f):
     """the file was skipped because a declaration-level parse error cannot be re-serialised"""
     d = v.get("details") or {}
+    if d.get("run_reproduced_by_model") is False:
+        return False
     return bool(d.get("file_skipped_unserialisable")) or bool(d.get("unserialisable"))
 
 
@@ -78,17 +82,22 @@ def check(run):
             run.hit("feature.var")
         if "@media" in css.lower() or "@supports" in css:
             run.hit("feature.nested")
-        # property, judged on the observable output only
-        for what, det in cli_oracle.evaluate(css, (im["after"].get("s_cm.css") or (None, None))[1], im, dbg, mode, prem, api):
-            run.violation(what, case, details=det)
-        # model correspondence
+        # model correspondence (first: whether the model - the unchanged tool's behaviour, K1 and K2 included - reproduces
+        # this run decides below whether a violation can be one of the known findings)
+        reproduced = False
         try:
             model = cli_common.parse_model(o)
+            d = cli_common.compare_run(model, im, ["s.css"])
+            reproduced = not d
+            if d:
+                run.diverge("cm-colors==Cm.Cli.processFile", case, d[:3], "see model")
         except Exception as e:  # noqa
-            run.diverge("cm-colors==Cm.Cli.processFile", case, "ran", "model failed: %r %s" % (e, o[:100])); continue
-        d = cli_common.compare_run(model, im, ["s.css"])
-        if d:
-            run.diverge("cm-colors==Cm.Cli.processFile", case, d[:3], "see model")
+            run.diverge("cm-colors==Cm.Cli.processFile", case, "ran", "model failed: %r %s" % (e, o[:100]))
+        # property, judged on the observable output only
+        for what, det in cli_oracle.evaluate(css, (im["after"].get("s_cm.css") or (None, None))[1], im, dbg, mode, prem, api):
+            det = dict(det or {})
+            det["run_reproduced_by_model"] = reproduced
+            run.violation(what, case, details=det)
     run.sample({"stylesheet": metas[0][0], "settings": metas[0][1:], "stdout": impls[0]["stdout"][:300]})
     run.assumptions = ["tinycss2's tokeniser/parser/serialiser is a parameter of the model (the harness hands the model the tree tinycss2 produces)",
                        "the property is judged on observable output only: stdout counters and list, report cards, the written file, the public API"]
